@@ -19,7 +19,7 @@ import (
 	"verif/harness/xlib"
 )
 
-var words = regexp.MustCompile(`\b(SyncUpdateState|SetState|State|FinishBuild|WaitForBuild|LogBuildResult|LogBuildError|addPendingBuild|taskDone|TaskDone|Stop|queueAsync|queueTargetAsync|queueTarget|queueResolvedTarget|AddInt64|numPending|numDone|close|pendingActions|pendingParses|closeOnce|buildTarget|Build|IsBuilt|NeedBuild|asyncError|resolveDependencies|DeclaredDependencies|Dependencies|errStop|finishedBuilding|waitOnChan|CompareAndSwapInt32|StoreInt32|LoadInt32|KeepGoing|checkForCycles|cycleDetector|completeAction)\b`)
+var words = regexp.MustCompile(`\b(SyncUpdateState|SetState|State|FinishBuild|WaitForBuild|LogBuildResult|LogBuildError|addPendingBuild|taskDone|TaskDone|Stop|queueAsync|queueTargetAsync|queueTarget|queueResolvedTarget|AddInt64|numPending|numDone|close|pendingActions|pendingParses|closeOnce|buildTarget|Build|IsBuilt|NeedBuild|asyncError|resolveDependencies|DeclaredDependencies|Dependencies|errStop|finishedBuilding|waitOnChan|CompareAndSwapInt32|StoreInt32|LoadInt32|KeepGoing|checkForCycles|cycleDetector|completeAction|pendingPackages|packageWaits|pendingTargets|waitOnChan|AddOrGet|PackageParsed|ParseFailed|IsFailure|FailedTargets|GetOrSet|Parses|parse\.Parse)\b`)
 
 type sk struct {
 	f *xlib.File
@@ -294,7 +294,7 @@ func skeleton(f *xlib.File, name string) string {
 
 func main() {
 	bt := xlib.Parse("src/core/build_target.go")
-	out := xlib.NewOut("C04", bt.Path, "src/core/state.go", "src/build/build_step.go", "src/plz/plz.go")
+	out := xlib.NewOut("C04", bt.Path, "src/core/state.go", "src/build/build_step.go", "src/plz/plz.go", "src/output/targets.go")
 	out.Def("enumOrder", "List String", xlib.LeanStrList(bt.ConstBlockNames("Inactive")))
 	for _, m := range []string{"IsBuilt", "State", "SetState", "SyncUpdateState", "FinishBuild", "WaitForBuild"} {
 		recv := "BuildTarget."
@@ -338,8 +338,37 @@ func main() {
 	for _, m := range []string{"queueResolvedTarget", "queueTargetAsync", "addPendingBuild", "taskDone", "Stop", "asyncError", "checkForCycles"} {
 		out.Def("sk_"+m, "String", xlib.LeanStr(skeleton(st, "BuildState."+m)))
 	}
+	// parse phase (C05): who waits for a package and who releases the waiters
+	for _, m := range []string{"addPendingParse", "LogParseResult", "SyncParsePackage", "WaitForPackage"} {
+		out.Def("sk_"+m, "String", xlib.LeanStr(skeleton(st, "BuildState."+m)))
+	}
+	// the initial value of numPending and the sizes of the task queues
+	{
+		var facts []string
+		ast.Inspect(st.AST, func(n ast.Node) bool {
+			kv, ok := n.(*ast.KeyValueExpr)
+			if !ok {
+				return true
+			}
+			if id, ok := kv.Key.(*ast.Ident); ok && (id.Name == "numPending" || id.Name == "pendingParses" || id.Name == "pendingActions") {
+				s := &sk{f: st}
+				facts = append(facts, id.Name+":"+s.src(kv.Value))
+			}
+			return true
+		})
+		out.Def("initFacts", "List String", xlib.LeanStrList(facts))
+	}
+	ot := xlib.Parse("src/output/targets.go")
+	out.Def("sk_handleOutput", "String", xlib.LeanStr(skeleton(ot, "buildingTargets.handleOutput")))
 	bs := xlib.Parse("src/build/build_step.go")
 	out.Def("sk_Build", "String", xlib.LeanStr(skeleton(bs, "Build")))
+	// buildTarget: only its state changes and terminal reports (every successful return is preceded by a built state)
+	{
+		saved := words
+		words = regexp.MustCompile(`\b(SetState|TargetBuilt|TargetCached|TargetBuildFailed|TargetBuildStopped|errStop|EnsureDownloaded)\b`)
+		out.Def("sk_buildTarget", "String", xlib.LeanStr(skeleton(bs, "buildTarget")))
+		words = saved
+	}
 	pz := xlib.Parse("src/plz/plz.go")
 	out.Def("sk_Run", "String", xlib.LeanStr(skeleton(pz, "Run")))
 	_ = token.NoPos
